@@ -249,6 +249,21 @@ impl DiscRig {
     self.ev.verif_participant_updated(GuidPrefix::new(&prefix));
     // (on rediscovery discovery.rs re-reads its SEDP DataReaders for unread samples of that
     // participant; in this rig every SEDP sample has been consumed when it was injected)
+    if was_new {
+      // Discovery::process_discovered_participant_data: endpoints restored from the attic are
+      // announced to the event loop again
+      let (readers, writers) = self
+        .db
+        .read()
+        .unwrap()
+        .endpoints_of_participant(GuidPrefix::new(&prefix));
+      for d in readers {
+        self.ev.verif_reader_updated(&d);
+      }
+      for d in writers {
+        self.ev.verif_writer_updated(&d);
+      }
+    }
     was_new
   }
 
